@@ -397,6 +397,7 @@ func runC03(c *Ctx) {
 			}
 		}
 	}
+	runC03Round3(c)
 }
 
 // runGoRule checks every `go` statement of the packages.
